@@ -22,13 +22,35 @@ import (
 
 const loopFuel = 4
 
+// a binding hoisted in front of the term that uses its result: `prefix TERM suffix`; rebinds lists the variables the
+// prefix re-binds (the receiver fields a called method may have written)
+type preEntry struct {
+	prefix, suffix string
+	rebinds        []string
+}
+
+// what is known of a translated function, for calls to it
+type finfo struct {
+	coqName     string
+	fieldParams []string // receiver fields (read or written, directly or through methods it calls), in parameter order
+	mutFields   []string // ... those written: returned after the results, in this order
+	nparams     int
+	paramKinds  []string
+	results     []string
+	extraMut    int // further extra results (package variables, slice parameters written to)
+}
+
+var translatedFns = map[string]*finfo{}
+
 type tctx struct {
 	p        *pkg
 	name     string
 	results  []string          // kinds of the results
 	kinds    map[string]string // variable -> kind: int, bytes, bool, err
 	mutated  []string          // slice parameters written to and package variables updated: returned as extra results
-	pre      []string          // bindings hoisted out of the expression being translated (atomic updates of package variables)
+	pre      []preEntry        // bindings hoisted out of the expression being translated (atomic updates, calls)
+	recvType string            // the struct type of the receiver, when its fields are the function's state
+	nfresh   int
 	inLoop   bool
 	loopVars []string
 	recv     string
@@ -186,13 +208,65 @@ func (c *tctx) expr(e ast.Expr, want string) (string, []string, string) {
 		g = append(g, fmt.Sprintf("(0 <=? %s)", lo), fmt.Sprintf("(%s <=? %s)", lo, hi), fmt.Sprintf("(%s <=? go_len %s)", hi, b))
 		return fmt.Sprintf("(go_sub %s %s %s)", b, lo, hi), g, "bytes"
 	case *ast.CallExpr:
+		// a method of the same receiver, a method of an integer-kind value, a function of the package
+		if se, ok := e.Fun.(*ast.SelectorExpr); ok {
+			if id, ok := se.X.(*ast.Ident); ok && c.recv != "" && id.Name == c.recv && c.recvType != "" {
+				info := ensureTranslated(c.p, c.recvType, se.Sel.Name)
+				if info == nil {
+					c.bad(e, "call of a method that is not translated")
+				}
+				res := c.call(e, info, "", false)
+				if len(res) != 1 {
+					c.bad(e, "call that does not have exactly one result in an expression")
+				}
+				return res[0], nil, info.results[0]
+			}
+			if x := src(se.X); x != "binary.BigEndian" && x != "fmt" && x != "bytes" && x != "atomic" && x != "errors" && x != "binary" {
+				// X.M() where M is a method of the package's integer type
+				if _, mfd := c.p.findMethod("Type", se.Sel.Name); mfd != nil {
+					if info := ensureTranslated(c.p, "Type", se.Sel.Name); info != nil {
+						x, g, k := c.expr(se.X, "int")
+						if k == "int" && len(g) == 0 {
+							res := c.call(e, info, x, true)
+							if len(res) == 1 {
+								return res[0], nil, info.results[0]
+							}
+						}
+					}
+				}
+			}
+		}
+		if id, ok := e.Fun.(*ast.Ident); ok {
+			if _, isVar := c.kinds[id.Name]; !isVar {
+				if _, ffd := c.p.findMethod("", id.Name); ffd != nil {
+					if info := ensureTranslated(c.p, "", id.Name); info != nil {
+						res := c.call(e, info, "", false)
+						if len(res) == 1 {
+							return res[0], nil, info.results[0]
+						}
+						c.bad(e, "call that does not have exactly one result in an expression")
+					}
+				}
+			}
+		}
 		fn := src(e.Fun)
 		switch fn {
 		case "len":
 			t, g, _ := c.expr(e.Args[0], "bytes")
 			return "(go_len " + t + ")", g, "int"
-		case "int", "int32", "int64", "uint64", "uint32", "uint", "Type":
+		case "int", "int64", "uint64", "uint", "Type":
 			return c.expr(e.Args[0], "int")
+		case "int32":
+			t, g, _ := c.expr(e.Args[0], "int")
+			return "(go_int32 " + t + ")", g, "int"
+		case "uint32":
+			t, g, _ := c.expr(e.Args[0], "int")
+			return "(" + t + " mod 4294967296)", g, "int"
+		case "make":
+			if len(e.Args) == 2 && kindOfType(e.Args[0]) == "bytes" {
+				n, g, _ := c.expr(e.Args[1], "int")
+				return "(go_make " + n + ")", append(g, "(0 <=? "+n+")"), "bytes"
+			}
 		case "byte", "uint8":
 			t, g, _ := c.expr(e.Args[0], "int")
 			return "(" + t + " mod 256)", g, "int"
@@ -223,7 +297,7 @@ func (c *tctx) expr(e ast.Expr, want string) (string, []string, string) {
 			if ue, ok := e.Args[0].(*ast.UnaryExpr); ok && ue.Op == token.AND {
 				if id, ok := ue.X.(*ast.Ident); ok && c.kinds[id.Name] == "int" {
 					k, g, _ := c.expr(e.Args[1], "int")
-					c.pre = append(c.pre, fmt.Sprintf("let %s := ((%s + %s) mod 18446744073709551616) in ", id.Name, id.Name, k))
+					c.pre = append(c.pre, preEntry{prefix: fmt.Sprintf("let %s := ((%s + %s) mod 18446744073709551616) in ", id.Name, id.Name, k)})
 					return id.Name, g, "int"
 				}
 			}
@@ -232,7 +306,45 @@ func (c *tctx) expr(e ast.Expr, want string) (string, []string, string) {
 		switch e.Op {
 		case token.LAND, token.LOR:
 			a, g1, _ := c.expr(e.X, "bool")
+			outer := c.pre
+			c.pre = nil
 			b, g2, _ := c.expr(e.Y, "bool")
+			inner := c.pre
+			c.pre = outer
+			if len(inner) > 0 {
+				// the right operand calls translated functions: it is evaluated - with whatever it re-binds - only if the
+				// left one does not decide
+				set := map[string]bool{}
+				for _, pe := range inner {
+					for _, r := range pe.rebinds {
+						set[r] = true
+					}
+				}
+				var rb []string
+				for r := range set {
+					rb = append(rb, r)
+				}
+				sort.Strings(rb)
+				n := c.fresh()
+				v := fmt.Sprintf("_v%d", n)
+				tail := ""
+				for _, r := range rb {
+					tail += ", " + r
+				}
+				evalB := wrapPre(inner, guarded(g2, "Some ("+b+tail+")"))
+				var cond string
+				if e.Op == token.LAND {
+					cond = fmt.Sprintf("(if %s then %s else Some (false%s))", a, evalB, tail)
+				} else {
+					cond = fmt.Sprintf("(if %s then Some (true%s) else %s)", a, tail, evalB)
+				}
+				pat := v
+				if len(rb) > 0 {
+					pat = "(" + v + tail + ")"
+				}
+				c.pre = append(c.pre, preEntry{prefix: fmt.Sprintf("match %s with None => None | Some %s => ", cond, pat), suffix: " end", rebinds: rb})
+				return v, g1, "bool"
+			}
 			op := " && "
 			// the right operand is evaluated only if the left one does not decide
 			for i := range g2 {
@@ -303,9 +415,172 @@ func (c *tctx) withPre(term string) string {
 	if len(c.pre) == 0 {
 		return term
 	}
-	t := "(" + strings.Join(c.pre, "") + term + ")"
+	t := wrapPre(c.pre, term)
 	c.pre = nil
 	return t
+}
+
+func wrapPre(pre []preEntry, term string) string {
+	if len(pre) == 0 {
+		return term
+	}
+	var b strings.Builder
+	b.WriteString("(")
+	for _, e := range pre {
+		b.WriteString(e.prefix)
+	}
+	b.WriteString(term)
+	for i := len(pre) - 1; i >= 0; i-- {
+		b.WriteString(pre[i].suffix)
+	}
+	b.WriteString(")")
+	return b.String()
+}
+
+func (c *tctx) fresh() int { c.nfresh++; return c.nfresh }
+
+// the fields of the receiver a function reads and writes, directly or through the methods of the same receiver it calls
+func (p *pkg) fieldUse(recvType string, fd *ast.FuncDecl, seen map[string]bool) (reads, writes map[string]bool) {
+	reads, writes = map[string]bool{}, map[string]bool{}
+	if fd.Recv == nil || len(fd.Recv.List) != 1 || len(fd.Recv.List[0].Names) != 1 {
+		return
+	}
+	rv := fd.Recv.List[0].Names[0].Name
+	calls := map[*ast.SelectorExpr]bool{}
+	ast.Inspect(fd.Body, func(n ast.Node) bool {
+		if ce, ok := n.(*ast.CallExpr); ok {
+			if se, ok := ce.Fun.(*ast.SelectorExpr); ok {
+				if id, ok := se.X.(*ast.Ident); ok && id.Name == rv {
+					calls[se] = true
+					key := recvType + "." + se.Sel.Name
+					if !seen[key] {
+						seen[key] = true
+						if _, mfd := p.findMethod(recvType, se.Sel.Name); mfd != nil {
+							r2, w2 := p.fieldUse(recvType, mfd, seen)
+							for f := range r2 {
+								reads[f] = true
+							}
+							for f := range w2 {
+								writes[f] = true
+							}
+						}
+					}
+				}
+			}
+		}
+		return true
+	})
+	sel := func(e ast.Expr) string {
+		if ix, ok := e.(*ast.IndexExpr); ok {
+			e = ix.X
+		}
+		if se, ok := e.(*ast.SelectorExpr); ok && !calls[se] {
+			if id, ok := se.X.(*ast.Ident); ok && id.Name == rv {
+				return se.Sel.Name
+			}
+		}
+		return ""
+	}
+	ast.Inspect(fd.Body, func(n ast.Node) bool {
+		switch st := n.(type) {
+		case *ast.SelectorExpr:
+			if !calls[st] {
+				if f := sel(st); f != "" {
+					reads[f] = true
+				}
+			}
+		case *ast.AssignStmt:
+			for _, l := range st.Lhs {
+				if f := sel(l); f != "" {
+					writes[f] = true
+				}
+			}
+		case *ast.IncDecStmt:
+			if f := sel(st.X); f != "" {
+				writes[f] = true
+			}
+		}
+		return true
+	})
+	return
+}
+
+// findMethod looks a method of a type up in all files of the package
+func (p *pkg) findMethod(recvType, name string) (string, *ast.FuncDecl) {
+	var files []string
+	for f := range p.files {
+		files = append(files, f)
+	}
+	sort.Strings(files)
+	for _, f := range files {
+		for _, d := range p.files[f].Decls {
+			fd, ok := d.(*ast.FuncDecl)
+			if !ok || fd.Name.Name != name {
+				continue
+			}
+			r := ""
+			if fd.Recv != nil && len(fd.Recv.List) == 1 {
+				t := fd.Recv.List[0].Type
+				if st, ok := t.(*ast.StarExpr); ok {
+					t = st.X
+				}
+				if id, ok := t.(*ast.Ident); ok {
+					r = id.Name
+				}
+			}
+			if r == recvType {
+				return f, fd
+			}
+		}
+	}
+	return "", nil
+}
+
+// call translates a call of another translated function: the call is hoisted, its results are fresh variables and
+// the receiver fields the callee may have written are re-bound
+func (c *tctx) call(e *ast.CallExpr, info *finfo, recvArg string, hasRecvArg bool) []string {
+	var args []string
+	var gs []string
+	for _, f := range info.fieldParams {
+		n := c.recv + "_" + f
+		if _, ok := c.kinds[n]; !ok {
+			c.bad(e, "call (field "+f+" of the callee is not part of the caller's state)")
+		}
+		args = append(args, n)
+	}
+	if hasRecvArg {
+		args = append(args, recvArg)
+	}
+	if len(e.Args) != len(info.paramKinds) {
+		c.bad(e, "call (argument count)")
+	}
+	for i, a := range e.Args {
+		t, g, _ := c.expr(a, info.paramKinds[i])
+		args, gs = append(args, t), append(gs, g...)
+	}
+	if len(gs) > 0 {
+		c.bad(e, "call with an argument that may panic")
+	}
+	n := c.fresh()
+	var res, pat, rebinds []string
+	for i := range info.results {
+		v := fmt.Sprintf("_r%d_%d", n, i)
+		res, pat = append(res, v), append(pat, v)
+	}
+	for _, f := range info.mutFields {
+		pat, rebinds = append(pat, c.recv+"_"+f), append(rebinds, c.recv+"_"+f)
+	}
+	for i := 0; i < info.extraMut; i++ {
+		c.bad(e, "call of a function that updates package variables or slice arguments")
+	}
+	p := "_"
+	if len(pat) == 1 {
+		p = pat[0]
+	} else if len(pat) > 1 {
+		p = "(" + strings.Join(pat, ", ") + ")"
+	}
+	c.pre = append(c.pre, preEntry{prefix: fmt.Sprintf("match %s %s with None => None | Some %s => ", info.coqName, strings.Join(args, " "), p), suffix: " end", rebinds: rebinds})
+	return res
 }
 
 func (c *tctx) tuple(xs []string) string {
@@ -469,12 +744,33 @@ func (c *tctx) stmts(list []ast.Stmt, k func() string) string {
 				}
 			}
 		}
+		// x, n := binary.Uvarint(b)
+		if len(s.Lhs) == 2 && len(s.Rhs) == 1 {
+			if ce, ok := s.Rhs[0].(*ast.CallExpr); ok && src(ce.Fun) == "binary.Uvarint" {
+				a, ok1 := s.Lhs[0].(*ast.Ident)
+				b, ok2 := s.Lhs[1].(*ast.Ident)
+				if ok1 && ok2 {
+					arg, g, _ := c.expr(ce.Args[0], "bytes")
+					c.kinds[a.Name], c.kinds[b.Name] = "int", "int"
+					return c.withPre(guarded(g, fmt.Sprintf("(let '(%s, %s) := go_uvarint %s in %s)", a.Name, b.Name, arg, rest())))
+				}
+			}
+		}
 		if len(s.Lhs) != len(s.Rhs) {
 			c.bad(s, "assignment")
 		}
 		var names, vals, gs []string
 		for i, l := range s.Lhs {
 			id, ok := l.(*ast.Ident)
+			if se, isSel := l.(*ast.SelectorExpr); isSel && !ok {
+				// a field of the receiver
+				if rid, isId := se.X.(*ast.Ident); isId && c.recv != "" && rid.Name == c.recv {
+					id, ok = &ast.Ident{Name: c.recv + "_" + se.Sel.Name, NamePos: se.Pos()}, true
+					if _, known := c.kinds[id.Name]; !known {
+						c.bad(s, "assignment to a field that is not part of the function's state")
+					}
+				}
+			}
 			if !ok {
 				c.bad(s, "assignment target")
 			}
@@ -511,6 +807,14 @@ func (c *tctx) stmts(list []ast.Stmt, k func() string) string {
 		return wrap(guarded(gs, fmt.Sprintf("(let %s := %s in %s)", c.pattern(names), c.tuple(vals), rest())))
 	case *ast.ExprStmt:
 		if call, ok := s.X.(*ast.CallExpr); ok {
+			if se, ok := call.Fun.(*ast.SelectorExpr); ok {
+				if id, ok := se.X.(*ast.Ident); ok && c.recv != "" && id.Name == c.recv && c.recvType != "" {
+					if info := ensureTranslated(c.p, c.recvType, se.Sel.Name); info != nil {
+						c.call(call, info, "", false)
+						return c.withPre(rest())
+					}
+				}
+			}
 			switch src(call.Fun) {
 			case "binary.BigEndian.PutUint16":
 				if id, ok := call.Args[0].(*ast.Ident); ok && c.kinds[id.Name] == "bytes" {
@@ -572,6 +876,8 @@ func (c *tctx) stmts(list []ast.Stmt, k func() string) string {
 			if s.Tag != nil {
 				tag, g, tk = c.exprAny(s.Tag)
 			}
+			tagPre := c.pre
+			c.pre = nil
 			var def []ast.Stmt
 			hasDef := false
 			type arm struct {
@@ -615,7 +921,8 @@ func (c *tctx) stmts(list []ast.Stmt, k func() string) string {
 				c.kinds = saved
 				term = fmt.Sprintf("(if %s then %s else %s)", arms[i].cond, body, term)
 			}
-			return guarded(g, term)
+			c.pre = tagPre
+			return c.withPre(guarded(g, term))
 		})
 	case *ast.ForStmt:
 		// for { body }: the body runs until it returns; the translation gives it loopFuel rounds (the lemma about the
@@ -729,6 +1036,8 @@ func translateFn(w *strings.Builder, p *pkg, file, recv, name string) {
 		return true
 	})
 	c := &tctx{p: p, name: p.name + "." + name, kinds: map[string]string{}}
+	info := &finfo{coqName: fmt.Sprintf("go_%s_%s", p.name, name)}
+	intRecv := false
 	var params []string
 	addParam := func(n, k string) {
 		c.kinds[n] = k
@@ -739,18 +1048,20 @@ func translateFn(w *strings.Builder, p *pkg, file, recv, name string) {
 		if k := kindOfType(fd.Recv.List[0].Type); k != "" {
 			addParam(c.recv, k) // a value receiver of integer kind (Type)
 			c.recv = ""
+			intRecv = true
 		} else {
-			// the fields of the receiver the body reads become parameters
+			// the fields of the receiver the body (and the methods of the receiver it calls) reads or writes are the
+			// function's state: parameters, and - those written - extra results
 			fields := p.structFields(recv)
+			c.recvType = recv
+			reads, writes := p.fieldUse(recv, fd, map[string]bool{recv + "." + name: true})
 			used := map[string]bool{}
-			ast.Inspect(fd.Body, func(n ast.Node) bool {
-				if se, ok := n.(*ast.SelectorExpr); ok {
-					if id, ok := se.X.(*ast.Ident); ok && id.Name == c.recv {
-						used[se.Sel.Name] = true
-					}
-				}
-				return true
-			})
+			for f := range reads {
+				used[f] = true
+			}
+			for f := range writes {
+				used[f] = true
+			}
 			var us []string
 			for f := range used {
 				us = append(us, f)
@@ -759,9 +1070,14 @@ func translateFn(w *strings.Builder, p *pkg, file, recv, name string) {
 			for _, f := range us {
 				k := fields[f]
 				if k == "" {
-					fail("translator: %s: receiver field %s of unsupported type (or a method call)", c.name, f)
+					fail("translator: %s: receiver field %s of unsupported type", c.name, f)
 				}
 				addParam(c.recv+"_"+f, k)
+				info.fieldParams = append(info.fieldParams, f)
+				if writes[f] {
+					info.mutFields = append(info.mutFields, f)
+					c.mutated = append(c.mutated, c.recv+"_"+f)
+				}
 			}
 		}
 	}
@@ -772,8 +1088,10 @@ func translateFn(w *strings.Builder, p *pkg, file, recv, name string) {
 		}
 		for _, n := range f.Names {
 			addParam(n.Name, k)
+			info.paramKinds = append(info.paramKinds, k)
 		}
 	}
+	_ = intRecv
 	if fd.Type.Results != nil {
 		for _, f := range fd.Type.Results.List {
 			k := kindOfType(f.Type)
@@ -831,6 +1149,9 @@ func translateFn(w *strings.Builder, p *pkg, file, recv, name string) {
 			}
 		}
 	}
+	info.results = c.results
+	info.extraMut = len(c.mutated) - len(info.mutFields)
+	translatedFns[p.name+"."+recv+"."+name] = info
 	var rts []string
 	for _, k := range c.results {
 		rts = append(rts, coqType(k))
@@ -849,13 +1170,33 @@ func translateFn(w *strings.Builder, p *pkg, file, recv, name string) {
 	fmt.Fprintf(w, "Definition go_%s_%s %s : option (%s) :=\n  %s.\n\n", p.name, name, strings.Join(params, " "), rt, body)
 }
 
+var transOut *strings.Builder
+
+// ensureTranslated translates a function of the package on demand (a callee is emitted before its caller)
+func ensureTranslated(p *pkg, recv, name string) *finfo {
+	key := p.name + "." + recv + "." + name
+	if info, ok := translatedFns[key]; ok {
+		return info
+	}
+	file, fd := p.findMethod(recv, name)
+	if fd == nil {
+		return nil
+	}
+	translateFn(transOut, p, file, recv, name)
+	return translatedFns[key]
+}
+
 // emitTranslated writes coq/Gen/Translated.v
 func emitTranslated(path string, msg, topics, sess, svc *pkg) bool {
 	var w strings.Builder
 	w.WriteString("(* GENERATED by /verif/tools/gentables (trans.go) from /repo's current working tree -- do not edit.\n")
 	w.WriteString("   Gallina translations of pure leaf functions of the library; the semantics of the fragment is Base/GoSem.v. *)\n")
 	w.WriteString("From Coq Require Import List ZArith Bool.\nFrom Base Require Import GoSem.\nImport ListNotations.\nOpen Scope Z_scope.\n\n")
+	transOut = &w
 	translate := func(w *strings.Builder, p *pkg, file, recv, name string) {
+		if _, done := translatedFns[p.name+"."+recv+"."+name]; done {
+			return
+		}
 		section("translation of "+p.name+"."+name, func() { translateFn(w, p, file, recv, name) })
 	}
 	translate(&w, topics, "memtopics.go", "", "nextTopicLevel")
@@ -867,6 +1208,7 @@ func emitTranslated(path string, msg, topics, sess, svc *pkg) bool {
 	translate(&w, msg, "header.go", "header", "msglen")
 	translate(&w, msg, "message.go", "Type", "DefaultFlags")
 	translate(&w, msg, "header.go", "", "nextPacketID")
+	translate(&w, msg, "header.go", "header", "decode")
 	translate(&w, sess, "ackqueue.go", "Ackqueue", "index")
 	translate(&w, sess, "ackqueue.go", "Ackqueue", "full")
 	translate(&w, sess, "ackqueue.go", "Ackqueue", "empty")
